@@ -67,6 +67,35 @@ def layout_fails(case):
     return None
 
 
+INT_PROBES = {'sqrt': (algopy.sqrt, np.sqrt), 'exp': (algopy.exp, np.exp), 'sin': (algopy.sin, np.sin), 'tanh': (algopy.tanh, np.tanh),
+              'reciprocal': (lambda x: 1 / x, lambda a: 1 / a), 'truediv': (lambda x: x / x[::-1], lambda a: a / a[::-1]),
+              'log': (algopy.log, np.log), 'inv': (lambda x: algopy.inv(algopy.reshape(algopy.tile(x, 2), (2, 2)) + np.eye(2) * 5),
+                                                     lambda a: np.linalg.inv(np.tile(a, 2).reshape(2, 2) + np.eye(2) * 5))}
+
+
+def intdtype_fails(case):
+    """a polynomial whose coefficient array has an integer dtype (UTPM(numpy.array([[2, 3]])...)): the zeroth coefficient of the
+    result is what NumPy returns for the integer zeroth coefficient (NumPy promotes to float)"""
+    name = case['op'].split(':', 1)[1]
+    f, g = INT_PROBES[name]
+    x = np.array(case['x'], dtype=int)
+    try:
+        with np.errstate(all='ignore'):
+            y = f(UTPM(x.copy()))
+    except Exception as ex:
+        return 'intdtype-exception-%s: raises %s on integer-typed coefficients although NumPy accepts the integer zeroth coefficient' % (name, type(ex).__name__)
+    for p in range(x.shape[1]):
+        ref = np.asarray(g(x[0, p]))
+        if y.data[0, p].shape != ref.shape or not np.allclose(np.asarray(y.data[0, p], dtype=float), ref, rtol=1e-12, atol=1e-12):
+            return 'intdtype-%s: integer-typed coefficients: the zeroth coefficient %s is not the NumPy result %s (truncated to integers)' % (
+                name, np.asarray(y.data[0, p]).tolist(), ref.tolist())
+    return None
+
+
+# recorded (not repaired) defect: see known_findings.json K-int-dtype
+FINDINGS = {'K-int-dtype': lambda case, what: str(case.get('op', '')).startswith('intdtype:') and what.startswith('intdtype-')}
+
+
 def zeroth_fails(case):
     o = ops.OPS[case['op']]
     if o['ref'] is None:
@@ -247,10 +276,21 @@ def replay_case(ctx, case):
         return None
     if 'fn' in case:
         return c01.run_case(ctx, case)
+    if str(case.get('op', '')).startswith('intdtype:'):
+        return intdtype_fails(case)
     return zeroth_fails(case) or traced_fails(case) or layout_fails(case)
 
 
 def run(ctx):
+    # polynomials with an integer coefficient dtype (recorded finding K-int-dtype while it lasts)
+    for name in sorted(INT_PROBES):
+        for k in range(2):
+            case = {'op': 'intdtype:' + name, 'D': 2, 'P': 2, 'x': np.array([[[2, 3], [3, 2]], [[1, 1], [1, 2]]]) + k}
+            ctx.evaluations += 1
+            ctx.count('int-dtype-probe')
+            f = intdtype_fails(case)
+            if f:
+                ctx.report(case, 'failure', f)
     names = sorted(ops.OPS)
     n = len(names) * (25 if ctx.tier == "quick" else 200)
     for i in range(n):
